@@ -4,9 +4,12 @@ under a directory is an enumerated kill point.
 install(plan, directory) replaces builtins.open / io.open (write modes under `directory`),
 os.replace, os.rename, os.fsync, os.unlink/remove in the *current* process (intended for a
 forked child).  In 'record' mode the plan logs the I/O event sequence; in 'kill' mode the
-process dies with os._exit(137) *before* event number `target` -- or, for a write event
-and a byte offset, after having written exactly that many bytes of it (unbuffered), which
-is what a SIGKILL in the middle of a write(2) sequence leaves behind.
+process dies with os._exit(137) *before* event number `target` -- or, for an OS-level write
+event and a byte offset, after exactly that many bytes of it reached the file.  The code
+under test gets a real io.BufferedWriter on top of the killing raw layer, so bytes that are
+still in the user-space buffer at the moment of death are lost, exactly as with SIGKILL
+(events: open, pywrite = Python-level write call, write = bytes reaching the OS, flush,
+fsync, close, replace/rename).
 """
 from __future__ import annotations
 
@@ -37,11 +40,18 @@ class Plan:
         return None
 
 
-class Proxy:
-    def __init__(self, raw, plan, path):
+class KillRaw(io.RawIOBase):
+    """Raw layer under a *real* io.BufferedWriter: sees exactly the bytes that reach the OS.
+    Bytes still sitting in the BufferedWriter's user-space buffer when the process dies are
+    lost, as they are for a real SIGKILL."""
+
+    def __init__(self, raw, plan):
+        super().__init__()
         self.raw = raw
         self.plan = plan
-        self.path = path
+
+    def writable(self):
+        return True
 
     def write(self, data):
         mv = memoryview(data).cast("B")
@@ -51,16 +61,39 @@ class Proxy:
             os._exit(137)
         return self.raw.write(mv)
 
-    def flush(self):
-        self.plan.hit("flush", self.path)
-        return self.raw.flush()
-
     def fileno(self):
         return self.raw.fileno()
 
     def close(self):
+        if not self.closed:
+            try:
+                self.raw.close()
+            finally:
+                super().close()
+
+
+class Proxy:
+    """Python-level file object handed to the code under test (a real BufferedWriter inside)."""
+
+    def __init__(self, buffered, plan, path):
+        self.buf = buffered
+        self.plan = plan
+        self.path = path
+
+    def write(self, data):
+        self.plan.hit("pywrite", len(memoryview(data).cast("B")))
+        return self.buf.write(data)
+
+    def flush(self):
+        self.plan.hit("flush", self.path)
+        return self.buf.flush()
+
+    def fileno(self):
+        return self.buf.fileno()
+
+    def close(self):
         self.plan.hit("close", self.path)
-        return self.raw.close()
+        return self.buf.close()
 
     def __enter__(self):
         return self
@@ -70,10 +103,10 @@ class Proxy:
         return False
 
     def __getattr__(self, k):
-        return getattr(self.raw, k)
+        return getattr(self.buf, k)
 
 
-def install(plan, directory):
+def install(plan, directory, buffer_size=io.DEFAULT_BUFFER_SIZE):
     directory = os.path.realpath(str(directory))
     real_open = builtins.open
 
@@ -87,7 +120,7 @@ def install(plan, directory):
         if any(c in mode for c in "wax+") and under(file):
             plan.hit("open", (os.path.basename(os.fspath(file)), mode))
             raw = real_open(file, mode if "b" in mode else mode + "b", buffering=0)
-            return Proxy(raw, plan, os.path.basename(os.fspath(file)))
+            return Proxy(io.BufferedWriter(KillRaw(raw, plan), buffer_size=buffer_size), plan, os.path.basename(os.fspath(file)))
         return real_open(file, mode, *a, **k)
 
     builtins.open = my_open
